@@ -12,7 +12,7 @@ SPEC = {
     "C01": {
         "LEAN": {"modules": ["GfaProofs.Bridge.Regex", "GfaProofs.Lemmas.CigarText", "GfaProofs.C20", "GfaProofs.C01", "GfaProofs.C01Doc"],
                  "support": ["GfaProofs.Lemmas.Digits", "GfaModel.Field", "GfaModel.Line", "GfaModel.DocOrder"],
-                 "theorems": ["Gfa.C01.splitOn_intercalate", "Gfa.C01.intercalate_splitOn", "Gfa.C01.tag_parse_print",
+                 "theorems": ["Gfa.C01Doc.writeOrder_sorted", "Gfa.C01.splitOn_intercalate", "Gfa.C01.intercalate_splitOn", "Gfa.C01.tag_parse_print",
                               "Gfa.C01.line_parse_print", "Gfa.C01.write_fixed_point",
                               "Gfa.C01Doc.docOrder_perm", "Gfa.C01Doc.writeOrder_perm", "Gfa.C01Doc.writeOrder_group",
                               "Gfa.C01Doc.writeOrder_idem",
@@ -48,7 +48,7 @@ SPEC = {
         "LEAN": {"modules": ["GfaProofs.C03", "GfaProofs.C03Perm", "GfaProofs.C12Orient", "GfaProofs.Bridge.PathOrient", "GfaProofs.C13"], "support": ["GfaModel.Graph", "GfaModel.Version", "GfaProofs.C02", "GfaProofs.C09"],
                  "theorems": ["Gfa.C03.pathLinks_perm", "Gfa.Bridge.PathOrient.linkOrient_eq", "Gfa.C03.build_simple_perm", "Gfa.C03.build_simple", "Gfa.C03.build_simple_placeholders", "Gfa.C03.add_step",
                               "Gfa.C03.validSimple_perm", "Gfa.C03.defined_not_virtual", "Gfa.C03.add_defines", "Gfa.C03.add_cases", "Gfa.C03.ensureRefs_keeps",
-                              "Gfa.C13.build_perm", "Gfa.C13.build_eq_spec", "Gfa.C02.closed_reachable_partial", "Gfa.C09.nodup_reachable"]},
+                              "Gfa.C13.build_perm", "Gfa.C13.build_eq_spec", "Gfa.C13.runSkip_accepted", "Gfa.C13.runSkip_spec", "Gfa.C02.closed_reachable_partial", "Gfa.C09.nodup_reachable"]},
         "ASSUMPTIONS": ["order independence is proved in Lean for documents of segments and segment-referencing lines (S, L, C, E, G, F; with or "
                         "without identifiers; valid: distinct identifiers, segment references that are segments or undefined, pairwise incompatible "
                         "links): every permutation builds the same version and the same multiset of lines = the document plus exactly one placeholder "
